@@ -43,13 +43,13 @@ open XotModel
 
 /-- Declarations after ⊆ before, node by node; none added, none altered, order kept. -/
 theorem C15_subset (env : Env) (t t' : Tree) (path : Path)
-    (h : deduplicateNamespaces env t path = some t') : AllSub (declsOf t') (declsOf t) :=
+    (h : deduplicateNamespaces env t path = some t') : AllSub (declsOfTree t') (declsOfTree t) :=
   (NsShrink.deduplicateNamespaces env t t' path h).decls
 
 /-- The node lists compared by `C15_subset` have the same length (they are the same nodes: see
     `C15_frame`). -/
 theorem C15_same_nodes (env : Env) (t t' : Tree) (path : Path)
-    (h : deduplicateNamespaces env t path = some t') : (declsOf t').length = (declsOf t).length :=
+    (h : deduplicateNamespaces env t path = some t') : (declsOfTree t').length = (declsOfTree t).length :=
   (C15_subset env t t' path h).length_eq
 
 /-- Names, attributes and content untouched: only namespace-node children are deleted. -/
@@ -74,8 +74,8 @@ def c15IdemWitness : Tree :=
 theorem C15_idem_false : ¬ C15_idem_statement := by
   intro h
   have key : ((deduplicateNamespaces {} c15IdemWitness []).bind fun t1 =>
-      (deduplicateNamespaces {} t1 []).map declsOf) ≠
-      (deduplicateNamespaces {} c15IdemWitness []).map declsOf := by decide
+      (deduplicateNamespaces {} t1 []).map declsOfTree) ≠
+      (deduplicateNamespaces {} c15IdemWitness []).map declsOfTree := by decide
   apply key
   cases hd : deduplicateNamespaces {} c15IdemWitness [] with
   | none => rfl
@@ -152,14 +152,14 @@ theorem C15_serialises_partial_inner (env : Env) (t t' : Tree) (path : Path)
 /-! ### Undeclarations are never removed -/
 
 /-- For every tree and every call node: node by node (the nodes are the same before and after:
-    `C15_frame`, `C15_same_nodes`; `declsOf` lists the declarations of every non-namespace node in
+    `C15_frame`, `C15_same_nodes`; `declsOfTree` lists the declarations of every non-namespace node in
     raw document order), every binding to the no-namespace id — `xmlns=""`, and `xmlns:p=""`
     which `Xot` accepts — that was there before is there afterwards.
     Hypothesis: no element of the call's subtree declares a prefix twice (the removal loop goes by
     prefix and deletes the FIRST namespace node with that key). -/
 theorem C15_keeps_undeclarations (env : Env) (t t' : Tree) (path : Path) (sub : Tree)
     (hs : t.at? path = some sub) (hu : UniqueDeclsBelow sub)
-    (h : deduplicateNamespaces env t path = some t') : AllKeep (declsOf t') (declsOf t) :=
+    (h : deduplicateNamespaces env t path = some t') : AllKeep (declsOfTree t') (declsOfTree t) :=
   dedup_keeps_undeclarations env t t' path sub hs hu h
 
 /-- `AllKeep` read at the `i`-th node: each pair `(p, no-namespace)` declared there before is
@@ -167,7 +167,7 @@ theorem C15_keeps_undeclarations (env : Env) (t t' : Tree) (path : Path) (sub : 
 theorem C15_keeps_undeclarations_at (env : Env) (t t' : Tree) (path : Path) (sub : Tree)
     (hs : t.at? path = some sub) (hu : UniqueDeclsBelow sub)
     (h : deduplicateNamespaces env t path = some t') (i : Nat) (before after : List (Nat × Nat))
-    (hb : (declsOf t)[i]? = some before) (ha : (declsOf t')[i]? = some after) (p : Nat)
+    (hb : (declsOfTree t)[i]? = some before) (ha : (declsOfTree t')[i]? = some after) (p : Nat)
     (hm : (p, Env.noNamespace) ∈ before) : (p, Env.noNamespace) ∈ after :=
   (C15_keeps_undeclarations env t t' path sub hs hu h).get i after before ha hb _ hm rfl
 
@@ -180,9 +180,9 @@ def c15UndeclWitness : Tree :=
     from `b`, the loop removes "the declaration of `p`", which is `xmlns:p=""`. -/
 theorem C15_keeps_undeclarations_unique_needed :
     ¬ ∀ (env : Env) (t t' : Tree), deduplicateNamespaces env t [] = some t' →
-        AllKeep (declsOf t') (declsOf t) := by
+        AllKeep (declsOfTree t') (declsOfTree t) := by
   intro h
-  have hd : (deduplicateNamespaces {} c15UndeclWitness []).map declsOf = some [[(3, 2)], [(2, 2)]] := by
+  have hd : (deduplicateNamespaces {} c15UndeclWitness []).map declsOfTree = some [[(3, 2)], [(2, 2)]] := by
     decide
   cases hx : deduplicateNamespaces {} c15UndeclWitness [] with
   | none => simp [hx] at hd
@@ -236,8 +236,8 @@ theorem C15_idem_needs_noRebind :
         deduplicateNamespaces env t [] = some t1 → deduplicateNamespaces env t1 [] = some t1 := by
   intro h
   have key : ((deduplicateNamespaces {} c15IdemWitness []).bind fun t1 =>
-      (deduplicateNamespaces {} t1 []).map declsOf) ≠
-      (deduplicateNamespaces {} c15IdemWitness []).map declsOf := by decide
+      (deduplicateNamespaces {} t1 []).map declsOfTree) ≠
+      (deduplicateNamespaces {} c15IdemWitness []).map declsOfTree := by decide
   apply key
   have hf : noFlag {} [] c15IdemWitness := by
     simp [c15IdemWitness, noFlag, noFlag.noFlagList, Tree.attrs, Tree.attributeNodes, Tree.kids,
@@ -262,8 +262,8 @@ theorem C15_idem_needs_noFlag :
         deduplicateNamespaces env t [] = some t1 → deduplicateNamespaces env t1 [] = some t1 := by
   intro h
   have key : ((deduplicateNamespaces c15IdemEnv2 c15IdemWitness2 []).bind fun t1 =>
-      (deduplicateNamespaces c15IdemEnv2 t1 []).map declsOf) ≠
-      (deduplicateNamespaces c15IdemEnv2 c15IdemWitness2 []).map declsOf := by decide
+      (deduplicateNamespaces c15IdemEnv2 t1 []).map declsOfTree) ≠
+      (deduplicateNamespaces c15IdemEnv2 c15IdemWitness2 []).map declsOfTree := by decide
   apply key
   have hg : noShadow [] c15IdemWitness2 := by
     simp [c15IdemWitness2, noShadow, noShadow.noShadowList, nsDecls_node, declsOfKids, Tree.value]
@@ -289,17 +289,17 @@ example : NoShadowing c15PartialWitness := by
 
 example : namesWritable c15PartialEnv c15PartialWitness [] = some true := by decide
 
-example : (deduplicateNamespaces c15PartialEnv c15PartialWitness []).map declsOf =
+example : (deduplicateNamespaces c15PartialEnv c15PartialWitness []).map declsOfTree =
     some [[(0, 2), (2, 3)], [(3, 2)], [], []] := by decide
 
 
 /-- `<a xmlns:p="A"><b xmlns:p="A"/></a>`: the redundant declaration on `b` goes, nothing else. -/
 example : (deduplicateNamespaces {} (.node (.element 0) [.node (.namespace 2 2) [],
-      .node (.element 0) [.node (.namespace 2 2) []]]) []).map declsOf = some [[(2, 2)], []] := by decide
+      .node (.element 0) [.node (.namespace 2 2) []]]) []).map declsOfTree = some [[(2, 2)], []] := by decide
 
 /-- Inner call on `b` (path `[2]`) of `c15PartialWitness`: only `xmlns:r="B"`… stays (B is not
     bound inside `b`'s subtree), and `xmlns:q` stays; the tree is still writable. -/
-example : (deduplicateNamespaces c15PartialEnv c15PartialWitness [2]).map declsOf =
+example : (deduplicateNamespaces c15PartialEnv c15PartialWitness [2]).map declsOfTree =
     some [[(0, 2), (2, 3)], [(3, 2)], [], [(4, 3)]] := by decide
 
 /-- `<a xmlns:p="A"><b><c xmlns:q="A"/><d xmlns=""/></b></a>`, call on `b` (path `[1]`): nothing
@@ -309,9 +309,9 @@ def c15InnerWitness : Tree :=
     .node (.element 0) [.node (.element 0) [.node (.namespace 3 2) []],
       .node (.element 0) [.node (.namespace 0 0) []]]]
 
-example : (deduplicateNamespaces {} c15InnerWitness [1]).map declsOf =
+example : (deduplicateNamespaces {} c15InnerWitness [1]).map declsOfTree =
     some [[(2, 2)], [], [(3, 2)], [(0, 0)]] := by decide
-example : (deduplicateNamespaces {} c15InnerWitness []).map declsOf =
+example : (deduplicateNamespaces {} c15InnerWitness []).map declsOfTree =
     some [[(2, 2)], [], [], [(0, 0)]] := by decide
 example : UniqueDeclsBelow c15InnerWitness := uniqueDeclsB_sound _ (by decide)
 example : NoShadowing c15InnerWitness := by
@@ -341,6 +341,6 @@ example : noRebind [] c15RebindWitness := by
 example : noFlag {} [] c15RebindWitness := by
   simp [c15RebindWitness, noFlag, noFlag.noFlagList, Tree.attrs, Tree.attributeNodes, Tree.kids,
     Tree.value, Value.category]
-example : (deduplicateNamespaces {} c15RebindWitness []).map declsOf = some [[(2, 2)], [], []] := by decide
+example : (deduplicateNamespaces {} c15RebindWitness []).map declsOfTree = some [[(2, 2)], [], []] := by decide
 
 end XotModel.Props
